@@ -26,7 +26,7 @@ Ltac gf HG := first
  [ exact (g_ds _ HG) | exact (g_mb _ HG) | exact (g_fin _ HG) | exact (g_wfj _ HG) | exact (g_rel _ HG)
  | exact (g_relmb _ HG) | exact (g_k _ HG) | exact (g_woken _ HG) | exact (g_gave _ HG) | exact (g_taken _ HG)
  | exact (g_std _ HG) | exact (g_stj _ HG) | exact (g_det _ HG) | exact (g_late _ HG) | exact (g_len _ HG)
- | exact (g_na _ HG) | exact (g_nb _ HG) | exact (g_succ _ HG) | exact (g_badlate _ HG) ].
+ | exact (g_na _ HG) | exact (g_nb _ HG) | exact (g_succ _ HG) | exact (g_badlate _ HG) | exact (g_fx _ HG) | reflexivity ].
 
 
 Lemma fin_out g m t p k v gu m1 e s : fin g m t p k v gu = (m1, e, s) ->
@@ -127,9 +127,9 @@ Section Step.
   Qed.
 
   (* g_recl when the reclaim count, fstate tgt, gfin, released are unchanged *)
-  Lemma recl_keep s1 m' g' : cell m' c_recl = cell (gm x) c_recl -> (t <> tgt -> fstate m' tgt = fstate (gm x) tgt) ->
+  Lemma recl_keep s1 m' g' fx' : cell m' c_recl = cell (gm x) c_recl -> (t <> tgt -> fstate m' tgt = fstate (gm x) tgt) ->
     gfin g' = gfin (gh x) -> released g' = released (gh x) ->
-    let x' := {| base := {| mem := m'; stk := upd (stk (base x)) t s1; nthr := nthr (base x); grd := grd (base x) |};
+    let x' := {| base := {| mem := m'; stk := upd (stk (base x)) t s1; nthr := nthr (base x); grd := grd (base x); fxd := fx' |};
                  gh := g' |} in
     reclaims (base x') = 0 \/
     (reclaims (base x') = 1 /\ stk (base x') tgt = [] /\ fstate (gm x') tgt = ST_DONE /\ tfin x').
@@ -141,9 +141,9 @@ Section Step.
       rewrite upd_other; auto.
   Qed.
 
-  Lemma recl_keep2 s1 m' g' : cell m' c_recl = cell (gm x) c_recl -> (t <> tgt -> fstate m' tgt = fstate (gm x) tgt) ->
+  Lemma recl_keep2 s1 m' g' fx' : cell m' c_recl = cell (gm x) c_recl -> (t <> tgt -> fstate m' tgt = fstate (gm x) tgt) ->
     (gfin (gh x) <> None -> gfin g' <> None) -> (released (gh x) = true -> released g' = true) ->
-    let x' := {| base := {| mem := m'; stk := upd (stk (base x)) t s1; nthr := nthr (base x); grd := grd (base x) |};
+    let x' := {| base := {| mem := m'; stk := upd (stk (base x)) t s1; nthr := nthr (base x); grd := grd (base x); fxd := fx' |};
                  gh := g' |} in
     reclaims (base x') = 0 \/
     (reclaims (base x') = 1 /\ stk (base x') tgt = [] /\ fstate (gm x') tgt = ST_DONE /\ tfin x').
@@ -273,7 +273,7 @@ Section Step.
     assert (W : woken (gh x) = false).
     { destruct (woken (gh x)) eqn:W; auto. destruct (g_woken _ HG W) as [s [u Q]]. congruence. }
     assert (Gv : gave (gh x) = false).
-    { destruct (gave (gh x)) eqn:W'; auto. destruct (g_gave _ HG W') as [s Q]. congruence. }
+    { destruct (gave (gh x)) eqn:W'; auto. destruct (g_gave _ HG W') as [s [u Q]]. congruence. }
     compute_step Hs. unfold sleep. cbn -[Z.add Z.mul]. rewrite K1. cbn -[Z.add Z.mul].
     pose proof (g_mb _ HG) as GM. rewrite E in GM. destruct GM as [GM1 GM2].
     split; [|split].
@@ -297,9 +297,10 @@ Section Step.
   Lemma case_s7 X : stk (base x) t = [Asleep; YLoop; FC X] ->
     slot_wait (gm x) t = None -> blocked (gm x) t = negb (woken (gh x)) ->
     ((mb (gh x) = MBFull t /\ woken (gh x) = false) \/ taken_by_any x t) ->
-    (woken (gh x) = true -> t <> tgt -> mail_ok x t) -> sleeperX x t X -> step_goal x t.
+    (woken (gh x) = true -> t <> tgt -> mail_ok x t) -> (gave (gh x) = true -> given x t) ->
+    sleeperX x t X -> step_goal x t.
   Proof.
-    intros Hs Sl B M Ml SX.
+    intros Hs Sl B M Ml _ SX.
     assert (W : woken (gh x) = true).
     { pose proof st_kstatus as K. rewrite Hs in K. unfold kstatus in K. rewrite B in K.
       destruct (woken (gh x)); [auto | discriminate]. }
@@ -347,8 +348,8 @@ Section Step.
         destruct T as [u T]. apply taken_released. eauto.
       + rely_same.
       + constructor; try gf HG; [apply asleep_keep | apply full_keep | apply recl_keep; reflexivity].
-    - compute_step Hs. split; [|split].
-      + rewrite upd_same. apply sh_jmail; auto.
+    - compute_step Hs. rewrite (g_fx _ HG). cbn -[Z.add Z.mul]. split; [|split].
+      + rewrite upd_same. apply sh_jchk; auto.
       + rely_same.
       + constructor; try gf HG; [apply asleep_keep | apply full_keep | apply recl_keep; reflexivity].
   Qed.
@@ -360,7 +361,7 @@ Section Step.
   Proof.
     intros N. repeat split.
     - destruct (woken (gh x)) eqn:W; auto. destruct (g_woken _ HG W) as [s [u Q]]. now apply N in Q.
-    - destruct (gave (gh x)) eqn:W; auto. destruct (g_gave _ HG W) as [s Q]. now apply N in Q.
+    - destruct (gave (gh x)) eqn:W; auto. destruct (g_gave _ HG W) as [s [u Q]]. now apply N in Q.
     - destruct (g_na _ HG) as [A1 A2]. destruct (na (gh x)); auto.
       destruct A2 as [s [u [Q _]]]; [lia | now apply N in Q].
     - destruct (g_nb _ HG) as [A1 A2]. destruct (nb (gh x)); auto.
@@ -435,10 +436,29 @@ Section Step.
           -- intros e0 I. pose proof (g_len _ HG) as Ln. rewrite NA, NB in Ln.
              destruct (gsucc (gh x)); [contradiction | discriminate].
       + (* a detach takes the sleeper *)
-        compute_step Hs. unfold ji_of. rewrite GM2, fname_eqb, tid_fname. cbn -[Z.add Z.mul].
-        rewrite ?orb_false_r, ?andb_false_r, ?orb_false_r.
+        compute_step Hs. unfold ji_of. rewrite GM2, fname_eqb, tid_fname, (g_fx _ HG).
+        destruct (Nat.eqb_spec s tgt) as [Es|Ns]; cbn -[Z.add Z.mul];
+          rewrite ?orb_false_r, ?andb_false_r, ?orb_false_r.
+        { (* the sleeper is the target itself: no mark *)
         split; [|split].
         * rewrite upd_same. apply sh_dready; auto; cbn; auto.
+        * constructor; cbn; intros; auto using upd_other;
+            try (left; reflexivity); try (left; split; [reflexivity | intros; reflexivity]);
+            try (match goal with H : ?b = true |- _ => rewrite H; reflexivity end).
+          right; right; right. exists s. auto.
+        * constructor; try gf HG; cbn; auto; try discriminate; try (intros; discriminate).
+          -- intros s0 u Q _. inversion Q; subst. rewrite upd_other by auto. eauto.
+          -- rewrite W. discriminate.
+          -- rewrite Gv. discriminate.
+          -- intros s0 u Q. inversion Q; subst. split; auto; intros; try contradiction; try congruence.
+          -- rewrite GD. discriminate.
+          -- rewrite NA. split; [lia | intros; lia].
+          -- rewrite NB. split; [lia | intros; lia].
+          -- destruct (g_recl _ HG) as [RZ|[_ [E0 _]]]; [left; exact RZ | rewrite <- Es in E0; congruence].
+        }
+        { (* the sleeper is a joiner: mark its mailbox first *)
+        split; [|split].
+        * rewrite upd_same. apply sh_dsent; auto; cbn; auto.
         * constructor; cbn; intros; auto using upd_other;
             try (left; reflexivity); try (left; split; [reflexivity | intros; reflexivity]);
             try (match goal with H : ?b = true |- _ => rewrite H; reflexivity end).
@@ -448,15 +468,12 @@ Section Step.
           -- intros s0 u Q _. inversion Q; subst. rewrite upd_other by auto. eauto.
           -- rewrite W. discriminate.
           -- rewrite Gv. discriminate.
-          -- intros s0 u Q. inversion Q; subst. split; auto. intros N _. left.
-             apply orb_true_iff. right. apply negb_true_iff. now apply Nat.eqb_neq.
-          -- intros Q. apply orb_true_iff in Q. destruct Q as [Q|Q]; [now apply (g_std _ HG)|].
-             apply Rg. rewrite E. apply negb_true_iff, Nat.eqb_neq in Q. destruct s; [contradiction | reflexivity].
+          -- intros s0 u Q. inversion Q; subst. split; auto. intros _ _. left. apply orb_true_r.
+          -- intros _. apply Rg. rewrite E. destruct s; [contradiction | reflexivity].
           -- rewrite GD. discriminate.
           -- rewrite NA. split; [lia | intros; lia].
           -- rewrite NB. split; [lia | intros; lia].
-          -- intros e0 I. pose proof (g_len _ HG) as Ln. rewrite NA, NB in Ln.
-             destruct (gsucc (gh x)); [contradiction | discriminate].
+        }
   Qed.
 
   (* ---- the target: fiber_mark_completed ---- *)
@@ -562,8 +579,8 @@ Section Step.
     - rewrite upd_same. apply sh_tready; auto.
     - constructor; cbn; intros; auto using upd_other;
         try (left; reflexivity); try (left; split; [reflexivity | intros; reflexivity]).
-      right. repeat split; auto. exists j, v. repeat split; auto.
-      + unfold gm. cbn. apply upd_same.
+      right. repeat split; auto. exists j. split; [congruence|]. split.
+      + left. split; auto. exists v. split; auto. unfold gm. cbn. apply upd_same.
       + intros u N. unfold gm. cbn. apply upd_other. unfold c_res. lia.
     - constructor; try gf HG; try (apply recl_keep; reflexivity); cbn; auto.
       + intros R0 Q. unfold gm. cbn. rewrite upd_other by (unfold c_res, tgt in *; lia). now apply (g_fin _ HG).
@@ -578,11 +595,13 @@ Section Step.
     inversion H; subst. match goal with B : blocked _ _ = negb _ |- _ => rewrite B, W end. reflexivity.
   Qed.
 
-  Lemma sched_rwk j : mb (gh x) = MBTaken j t -> woken (gh x) = false -> (t = tgt -> gave (gh x) = true) ->
+  Lemma sched_rwk j : mb (gh x) = MBTaken j t -> woken (gh x) = false ->
+    (j <> tgt -> nostolen x -> gave (gh x) = true) ->
     true = woken (gh x) /\
     (forall u : nat, u <> t -> upd (blocked (mem (base x))) j false u = blocked (gm x) u) \/
-    woken (gh x) = false /\ true = true /\ mb (gh x) = mb (gh x) /\ (t = tgt -> gave (gh x) = true) /\
-    (exists s : nat, mb (gh x) = MBTaken s t /\ upd (blocked (mem (base x))) j false s = false /\
+    woken (gh x) = false /\ true = true /\ mb (gh x) = mb (gh x) /\
+    (exists s : nat, mb (gh x) = MBTaken s t /\ (s <> tgt -> nostolen x -> gave (gh x) = true) /\
+       upd (blocked (mem (base x))) j false s = false /\
        (forall u : nat, u <> t -> u <> s -> upd (blocked (mem (base x))) j false u = blocked (gm x) u)).
   Proof.
     intros E W Gv. right. repeat split; auto. exists j. repeat split; auto.
@@ -597,11 +616,11 @@ Section Step.
     intros E W. destruct (Nat.eq_dec u j) as [->|N]; [right; auto | left; now apply upd_other].
   Qed.
 
-  Lemma recl_sched j s1 m' g' : mb (gh x) = MBTaken j t -> woken (gh x) = false -> t <> tgt ->
+  Lemma recl_sched j s1 m' g' fx' : mb (gh x) = MBTaken j t -> woken (gh x) = false -> t <> tgt ->
     cell m' c_recl = cell (mem (base x)) c_recl ->
     fstate m' = upd (fstate (mem (base x))) j ST_READY ->
     gfin g' = gfin (gh x) -> released g' = released (gh x) ->
-    let x' := {| base := {| mem := m'; stk := upd (stk (base x)) t s1; nthr := nthr (base x); grd := grd (base x) |};
+    let x' := {| base := {| mem := m'; stk := upd (stk (base x)) t s1; nthr := nthr (base x); grd := grd (base x); fxd := fx' |};
                  gh := g' |} in
     cell (mem (base x')) c_recl = 0 \/
     (cell (mem (base x')) c_recl = 1 /\ upd (stk (base x)) t s1 tgt = [] /\
@@ -747,7 +766,7 @@ Section Step.
   Qed.
 
   Lemma case_jmail p k : stk (base x) t = [CLoadC (c_res t) 5; FC (JMail p k)] -> t <> tgt -> run x t ->
-    taken_by_any x t -> woken (gh x) = true -> mail_ok x t -> na (gh x) = O -> late (gh x) t = false ->
+    taken_by_any x t -> woken (gh x) = true -> mail_val x t -> na (gh x) = O -> late (gh x) t = false ->
     step_goal x t.
   Proof.
     intros Hs Nt R T W Ml NA LT. compute_step Hs. split; [|split].
@@ -755,6 +774,54 @@ Section Step.
       unfold gm in B. rewrite A. f_equal. auto.
     - rely_same.
     - keepG.
+  Qed.
+
+
+  Lemma case_jchk p k : stk (base x) t = [CLoadC (c_res t) 5; FC (JChk p k)] -> t <> tgt -> run x t ->
+    taken_by_any x t -> woken (gh x) = true -> mail_ok x t -> na (gh x) = O -> late (gh x) t = false ->
+    step_goal x t.
+  Proof.
+    intros Hs Nt R T W Ml NA LT. compute_step Hs.
+    match goal with |- context [?v =? SENT] => destruct (Z.eqb_spec v SENT) as [Z|NZ] end;
+      cbn -[Z.add Z.mul]; (split; [|split]).
+    - rewrite upd_same. now apply sh_jdetd.
+    - rely_same.
+    - keepG.
+    - rewrite upd_same. apply sh_jmail; auto. intros NS. destruct (Ml NS) as [Q|Q]; [exact Q|].
+      unfold gm in Q. contradiction.
+    - rely_same.
+    - keepG.
+  Qed.
+
+  Lemma case_jdetd p k : stk (base x) t = [CStoreC (c_res t) 0 5; FC (JDetd p k)] -> t <> tgt -> run x t ->
+    step_goal x t.
+  Proof.
+    intros Hs Nt R. compute_step Hs. split_fin. cbn -[Z.add Z.mul]. rewrite ?app_nil_r. split; [|split].
+    - rewrite upd_same. apply start_shape. now apply idle_client.
+    - constructor; cbn; intros; auto using upd_other;
+        try (left; reflexivity); try (left; split; [reflexivity | intros; reflexivity]).
+      left. split; auto. intros u N. apply upd_other. lia.
+    - constructor; try gf HG; try (apply recl_keep; reflexivity); cbn; auto.
+      + intros R0 Q. rewrite upd_other by (unfold tgt in *; lia). now apply (g_fin _ HG).
+      + apply asleep_keep.
+      + apply full_keep.
+  Qed.
+
+  Lemma case_dsent p k j : stk (base x) t = [CStoreC (c_res j) SENT 5; FC (DSent p k j)] -> t <> tgt -> run x t ->
+    mb (gh x) = MBTaken j t -> woken (gh x) = false -> gave (gh x) = false -> j <> tgt -> step_goal x t.
+  Proof.
+    intros Hs Nt R E W Gv Nj. compute_step Hs. split; [|split].
+    - rewrite upd_same. apply sh_dready; auto.
+    - constructor; cbn; intros; auto using upd_other;
+        try (left; reflexivity); try (left; split; [reflexivity | intros; reflexivity]).
+      right. repeat split; auto. exists j. split; auto. split.
+      + right. split; auto. unfold gm. cbn. apply upd_same.
+      + intros u N. unfold gm. cbn. apply upd_other. unfold c_res. lia.
+    - constructor; try gf HG; try (apply recl_keep; reflexivity); cbn; auto.
+      + intros R0 Q. unfold gm. cbn. rewrite upd_other by (unfold c_res, tgt in *; lia). now apply (g_fin _ HG).
+      + apply asleep_keep.
+      + apply full_keep.
+      + intros _. eauto.
   Qed.
 
   Lemma case_jreadres p k : stk (base x) t = [CLoadC (c_res tgt) 5; FC (JReadRes p k)] -> t <> tgt -> run x t ->
@@ -803,7 +870,7 @@ Section Step.
       unfold run, gm. cbn. rewrite !upd_other by congruence. auto.
     - constructor; cbn; intros; auto using upd_other;
         try (left; reflexivity); try (left; split; [reflexivity | intros; reflexivity]).
-      + apply sched_rwk; auto; intros; contradiction.
+      + apply sched_rwk; auto. intros N NS. unfold nostolen in NS. rewrite (SJ N) in NS. discriminate.
       + apply sched_rfst; auto.
       + right. eauto.
     - constructor; try gf HG; try (apply recl_keep; reflexivity);
@@ -817,9 +884,9 @@ Section Step.
   Qed.
 
   Lemma case_dready p k j : stk (base x) t = [FStWrite j ST_READY; FC (DReady p k j)] -> t <> tgt -> run x t ->
-    mb (gh x) = MBTaken j t -> woken (gh x) = false -> step_goal x t.
+    mb (gh x) = MBTaken j t -> woken (gh x) = false -> (j <> tgt -> gave (gh x) = true) -> step_goal x t.
   Proof.
-    intros Hs Nt R E W. pose proof (sleeper_blocked _ _ E W) as Bj. unfold gm in Bj.
+    intros Hs Nt R E W GvJ. pose proof (sleeper_blocked _ _ E W) as Bj. unfold gm in Bj.
     destruct (g_taken _ HG _ _ E) as [Njt _].
     destruct R as [R1 [R2 R3]]. unfold gm in *.
     compute_step Hs. unfold wake. cbn -[Z.add Z.mul]. rewrite Bj. cbn -[Z.add Z.mul].
@@ -829,7 +896,7 @@ Section Step.
       unfold run, gm. cbn. rewrite !upd_other by congruence. auto.
     - constructor; cbn; intros; auto using upd_other;
         try (left; reflexivity); try (left; split; [reflexivity | intros; reflexivity]).
-      + apply sched_rwk; auto; intros; contradiction.
+      + apply sched_rwk; auto.
       + apply sched_rfst; auto.
     - constructor; try gf HG; try (apply recl_keep; reflexivity);
         try (eapply recl_sched; eauto; reflexivity); cbn; auto; try discriminate;
@@ -1046,6 +1113,8 @@ Section Step.
     - eapply case_ty5; eauto.
     - eapply case_jload; eauto.
     - eapply case_jxchg; eauto.
+    - eapply case_jchk; eauto.
+    - eapply case_jdetd; eauto.
     - eapply case_jmail; eauto.
     - eapply case_jclear; eauto.
     - eapply case_jreadres; eauto.
@@ -1054,6 +1123,7 @@ Section Step.
     - eapply case_trl2; eauto.
     - eapply case_trx; eauto.
     - eapply case_dx; eauto.
+    - eapply case_dsent; eauto.
     - eapply case_dready; eauto.
   Qed.
 End Step.
@@ -1065,7 +1135,7 @@ Proof.
   rewrite (r_stk _ _ _ B u N). exact (stable x (istep x t) t u _ HG B N eq_refl (HS u)).
 Qed.
 
-Lemma init_inv g progs : Inv (iinit g progs).
+Lemma init_inv g progs : Inv (iinit true g progs).
 Proof.
   split.
   - constructor; cbn; auto; try discriminate; try (intros; discriminate); try lia.
@@ -1075,23 +1145,22 @@ Proof.
   - intros t. cbn. constructor; cbn; auto. intros _. split; [reflexivity | discriminate].
 Qed.
 
-Theorem ireach_inv g progs x : ireach g progs x -> Inv x.
+Theorem ireach_inv g progs x : ireach true g progs x -> Inv x.
 Proof. induction 1; [apply init_inv | now apply step_inv]. Qed.
 
 
 (* ------------------------------------------------------------------ *)
 (* Property lemmas (used by Properties_C04.v).                         *)
-Lemma nostolen_of_flags x : G x -> dwr (gh x) = false -> jwr (gh x) = false -> nostolen x.
+Lemma nostolen_of_flags x : G x -> jwr (gh x) = false -> nostolen x.
 Proof.
-  intros HG D J. split.
-  - destruct (stolen_d (gh x)) eqn:E; auto. rewrite (g_std _ HG E) in D. discriminate.
-  - destruct (stolen_j (gh x)) eqn:E; auto. rewrite (g_stj _ HG E) in J. discriminate.
+  intros HG J. unfold nostolen.
+  destruct (stolen_j (gh x)) eqn:E; auto. rewrite (g_stj _ HG E) in J. discriminate.
 Qed.
 
-Lemma success_value_of_inv x : Inv x -> dwr (gh x) = false -> jwr (gh x) = false ->
+Lemma success_value_of_inv x : Inv x -> jwr (gh x) = false ->
   forall t v f, In (t, v, f) (gsucc (gh x)) -> f = Some v.
 Proof.
-  intros [HG _] D J t v f I. exact (g_succ _ HG _ I (nostolen_of_flags x HG D J)).
+  intros [HG _] J t v f I. exact (g_succ _ HG _ I (nostolen_of_flags x HG J)).
 Qed.
 
 Lemma one_success_of_inv x : Inv x -> jwr (gh x) = false -> (length (gsucc (gh x)) <= 1)%nat.
